@@ -5,7 +5,6 @@
 From Coq Require Import ZArith.
 From V.model Require Import Base Deb822Lex Deb822Parse Grammar Lossy LossySpec Derive TypedDocs.
 From V.proofs Require Import BaseP LossyRtP DeriveP.
-Set Default Timeout 60.
 
 (* ------------------------------------------------------------------ strings *)
 Lemma split_lf_nolf y : no_lf y = true -> split_lf y = [y].
